@@ -264,3 +264,35 @@ theorem wf_ptNo_steps : ∀ (l : List (Nat × Nat × Nat)), WFCalls l →
 
 end CountAcc
 end Dfols
+
+namespace Dfols
+namespace CountAcc
+
+/-- after the objective raised, no further evaluation is accepted (the `dead` phase is absorbing) -/
+theorem dead_absorbing {s s' : St} {e : Ev} (hd : s.phase = .dead) (h : step s e = .ok s') :
+    s'.phase = .dead ∧ isObj e = false := by
+  cases e <;> simp only [step, hd] at h
+  all_goals (repeat' split at h)
+  all_goals (first | (simp at h; done) | skip)
+  all_goals (simp only [Except.ok.injEq] at h; subst h)
+  all_goals (first | exact ⟨hd, rfl⟩ | exact ⟨rfl, rfl⟩ | (simp_all [isObj]))
+
+theorem dead_foldlM {s s' : St} (evs : List Ev) (hd : s.phase = .dead) (h : evs.foldlM step s = .ok s') :
+    ∀ e ∈ evs, isObj e = false := by
+  induction evs generalizing s with
+  | nil => intro e he; simp at he
+  | cons e evs ih =>
+    simp only [List.foldlM_cons, bind, Except.bind] at h
+    cases hs : step s e with
+    | error m => simp [hs] at h
+    | ok s1 =>
+      rw [hs] at h
+      have := dead_absorbing hd hs
+      intro e' he'
+      simp only [List.mem_cons] at he'
+      rcases he' with he' | he'
+      · subst he'; exact this.2
+      · exact ih this.1 h e' he'
+
+end CountAcc
+end Dfols
